@@ -11,6 +11,7 @@ Driver for property C13.  One history per line, one answer per line.
             r<c>,<n>     ReleaseName(n) by c
             o<c>,<n>     GetNameOwner(n) by c
             l<c>,<n>     ListQueuedOwners(n) by c
+            x<c>[,<k>]   other traffic of c through the bus (kind k is the harness's business)
     answer: one field per step, joined by " | ":   <events>#<Bus.busNames>#<clients' busNames>
       events (in the order sent), joined by ",", "-" when none:
             A<to>:<n> NameAcquired   L<to>:<n> NameLost   B<n>:<old>:<new> NameOwnerChanged broadcast
@@ -41,6 +42,8 @@ def parseOp (w : String) : Option Op :=
     | [a, b], 'r' => do pure (.release (← nat? a) (← nat? b))
     | [a, b], 'o' => do pure (.getOwner (← nat? a) (← nat? b))
     | [a, b], 'l' => do pure (.listQueued (← nat? a) (← nat? b))
+    | [a, _], 'x' => do pure (.other (← nat? a))
+    | [a], 'x' => do pure (.other (← nat? a))
     | _, _ => none
   | [] => none
 
